@@ -10,7 +10,7 @@ from numba_scfg.core.datastructures.basic_block import (
 
 from . import gen_graphs as gg
 from . import models as M
-from .core import debug_logging, exc_sig, h64, library_raised, norm
+from .core import debug_logging, default_recursion_limit, exc_sig, h64, library_raised, norm
 
 STAGES3 = ("closed", "loop", "branch")
 
@@ -29,6 +29,10 @@ def build(g, stage, payload="plain", trees=None):
         if len(g) % 4 == 3 and len(g) <= 12:
             # a quarter of the (small) graphs runs under the configuration "debug logging on"
             with debug_logging():
+                scfg = M.apply_stage(scfg, stage)
+        elif len(g) >= 80:
+            # large / deeply nested graphs: under the interpreter's default recursion limit
+            with default_recursion_limit():
                 scfg = M.apply_stage(scfg, stage)
         else:
             scfg = M.apply_stage(scfg, stage)
